@@ -6,6 +6,7 @@ package main
 
 import (
 	"fmt"
+	"sort"
 	"strconv"
 	"strings"
 )
@@ -112,6 +113,8 @@ func (v mVal) classStr() string {
 func shortErrCode(i int) int { return -32050 - i }
 
 func fmtMarks(m []int) string {
+	m = append([]int{}, m...)
+	sort.Ints(m) // the observer lists the visible marks by ascending middleware number
 	s := make([]string, len(m))
 	for i, x := range m {
 		s[i] = strconv.Itoa(x)
@@ -137,6 +140,17 @@ func modelled(method string) bool {
 type evalEnv struct {
 	targets []string                        // by chain index; "" for middlewares that leave the method alone
 	base    func(method string) *baseAnswer // nil result: no reference answer (the case cannot be judged)
+	// uids: scenario "shared" — the number under which the middleware at chain position i is known (its stages are
+	// named m<uid>-before/after, its tag suffix is +m<uid>, ...). One middleware value can sit at different positions
+	// of different servers, so there the name cannot be the position. nil: the name is the position.
+	uids []int
+}
+
+func (e *evalEnv) name(i int) int {
+	if e.uids == nil {
+		return i
+	}
+	return e.uids[i]
 }
 
 // eval interprets chain[i:] for one request and appends the stages that run to tr.
@@ -152,7 +166,8 @@ func eval(env *evalEnv, chain []beh, i int, id, method, tag string, marks []int,
 		}
 		return mVal{Class: "result", Origin: "handler", At: -1, Tag: tag, Method: method}
 	}
-	*tr = append(*tr, mStage{Stage: fmt.Sprintf("m%d-before", i), Meth: method, Marks: fmtMarks(marks), Tag: tag})
+	u := env.name(i)
+	*tr = append(*tr, mStage{Stage: fmt.Sprintf("m%d-before", u), Meth: method, Marks: fmtMarks(marks), Tag: tag})
 	var v mVal
 	inner := "-"
 	switch b := chain[i].effective(id); b {
@@ -164,22 +179,22 @@ func eval(env *evalEnv, chain []beh, i int, id, method, tag string, marks []int,
 		if b.rewritesMethod() {
 			m2 = env.targets[i]
 		}
-		v = eval(env, chain, i+1, id, m2, tag+fmt.Sprintf("+m%d", i), append(append([]int{}, marks...), i), tr)
+		v = eval(env, chain, i+1, id, m2, tag+fmt.Sprintf("+m%d", u), append(append([]int{}, marks...), u), tr)
 		inner = v.classStr()
 	case bModRes:
 		v = eval(env, chain, i+1, id, method, tag, marks, tr)
 		inner = v.classStr()
 		if v.Class != "goerr" { // an error travels outward untouched
-			v.ResMarks = append(append([]int{}, v.ResMarks...), i)
+			v.ResMarks = append(append([]int{}, v.ResMarks...), u)
 		}
 	case bShort:
-		v = mVal{Class: "result", Origin: "short", At: i, Method: method}
+		v = mVal{Class: "result", Origin: "short", At: u, Method: method}
 	case bShortErr:
-		v = mVal{Class: "rpcerr", Origin: "shortErr", At: i, Method: method, Code: shortErrCode(i), Msg: fmt.Sprintf("shortErr:m%d:%s", i, id)}
+		v = mVal{Class: "rpcerr", Origin: "shortErr", At: u, Method: method, Code: shortErrCode(u), Msg: fmt.Sprintf("shortErr:m%d:%s", u, id)}
 	case bFail:
-		v = mVal{Class: "goerr", Origin: "fail", At: i, Method: method, Code: -32603, Msg: fmt.Sprintf("fail:m%d:%s", i, id)}
+		v = mVal{Class: "goerr", Origin: "fail", At: u, Method: method, Code: -32603, Msg: fmt.Sprintf("fail:m%d:%s", u, id)}
 	}
-	*tr = append(*tr, mStage{Stage: fmt.Sprintf("m%d-after", i), Inner: inner})
+	*tr = append(*tr, mStage{Stage: fmt.Sprintf("m%d-after", u), Inner: inner})
 	return v
 }
 
